@@ -1396,12 +1396,25 @@ class Stage:
                 subst_to.append(ret.t0)
             elif is_equal(k, self.t):
                 subst_to.append(ret.t)
+            elif is_equal(k, self.DT):
+                subst_to.append(ret.DT)
+            elif is_equal(k, self.DT_control):
+                subst_to.append(ret.DT_control)
             else:
                 subst_to.append(MX.sym(k.name(), k.sparsity()))
+        def renew(exprs):
+            # Expressions of the template may refer to its t, T, t0 and other placeholders
+            exprs = list(exprs)
+            return substitute(exprs, subst_from, subst_to) if exprs else []
+
         for k_old, k_new in zip(subst_from, subst_to):
-            ret._placeholders[k_new] = self._placeholders[k_old]
+            name, expr, p_args, p_kwargs = self._placeholders[k_old]
+            if isinstance(expr, MX):
+                expr = renew([expr])[0]
+            ret._placeholders[k_new] = (name, expr, p_args, p_kwargs)
 
         ret.states = copy(self.states)
+        ret.qstates = copy(self.qstates)
         ret.controls = copy(self.controls)
         ret.algebraics = copy(self.algebraics)
         ret.parameters = deepcopy(self.parameters)
@@ -1409,10 +1422,10 @@ class Stage:
 
         ret._offsets = deepcopy(self._offsets)
         ret._param_vals = copy(self._param_vals)
-        ret._state_der = copy(self._state_der)
+        ret._state_der = HashDict(zip(self._state_der.keys(), renew(self._state_der.values())))
         ret._scale_der = copy(self._scale_der)
-        ret._alg = copy(self._alg)
-        ret._state_next = copy(self._state_next)
+        ret._alg = renew(self._alg)
+        ret._state_next = HashDict(zip(self._state_next.keys(), renew(self._state_next.values())))
         constr_types = self._constraints.keys()
         orig = []
         for k in constr_types:
